@@ -61,6 +61,11 @@ var CorpusHand = []RouteSet{
 	rs("noncanonical-static", "GET", "/n/./b/", "/q", "/m/../d", "/k/./e/"),
 	// a static route matching without the slash, and a parameter sibling whose sub-tree branches right after its '/'
 	rs("tsr-static-over-param-branch", "GET", "/u/m", "/u/{i}", "/u/{i}/p", "/u/{i}/l"),
+	// a pattern ending in an infix catch-all continuation that is registered after two deeper ones sharing exactly it
+	// (indices 0, 2, 4 share a method in C07)
+	rs("infix-exact-after-deeper", "GET", "/a/*{x}/bc", "/q", "/a/*{x}/bd", "/r", "/a/*{x}/b"),
+	// an infix catch-all node with children (start set for writes beneath it)
+	rs("infix-children", "GET", "/f/*{p}/ba", "/f/*{p}/bc", "/g"),
 }
 
 // fanout has 60 sibling first bytes under "/" (the 50-child linear/binary search switch).
